@@ -83,6 +83,7 @@ func c18Body(t *rapid.T) {
 	}
 	var tasks []task
 	ntask := 0
+	crossCreds := 0
 
 	create := func(t *rapid.T, mode string) {
 		req := map[string]any{}
@@ -106,6 +107,18 @@ func c18Body(t *rapid.T) {
 		case "kafka":
 			req["kafka_connect_param"] = map[string]any{"address": "127.0.0.1:9", "topic": "cdc", "enable_sasl": true,
 				"sasl": map[string]any{"username": newSecret("sasluser"), "password": newSecret("saslpw"), "mechanisms": "PLAIN", "security_protocol": "SASL_PLAINTEXT"}}
+		}
+		// the request may also carry credentials in the connect param of the OTHER kind of downstream (no address there, so the
+		// kind of the task does not change): they are secrets of the request like the others
+		cross := rapid.IntRange(0, 3).Draw(t, "crossCredentials") == 0
+		if cross {
+			if cred == "kafka" {
+				req["milvus_connect_param"] = map[string]any{"username": "root", "password": newSecret("xmilvuspw"), "token": newSecret("xmilvustoken")}
+			} else {
+				req["kafka_connect_param"] = map[string]any{"enable_sasl": true,
+					"sasl": map[string]any{"username": newSecret("xsasluser"), "password": newSecret("xsaslpw"), "mechanisms": "PLAIN", "security_protocol": "SASL_PLAINTEXT"}}
+			}
+			crossCreds++
 		}
 		if mode == "invalid" { // rejected by validation after the secrets were decoded
 			req["buffer_config"] = map[string]any{"period": -1}
@@ -239,6 +252,7 @@ func c18Body(t *rapid.T) {
 	})
 	st.ClassIf(failurePaths > 0, "failure_path_after_secrets_accepted")
 	st.ClassIf(kafkaTasks > 0, "kafka_target")
+	st.ClassIf(crossCreds > 0, "credentials_in_the_other_connect_param")
 	st.ClassIf(w.nInc > 1, "restart")
 	st.Count("secrets", len(secrets))
 	st.NonTrivial(failurePaths > 0 && len(secrets) > 0)
